@@ -3,11 +3,9 @@
 From CG Require Import Spec.LockDiscipline.
 
 Definition facts : cfacts :=
-  mkCF 2 false 2 [
-    mkMF "__getstate__" false 0 0 [] [] 0 0;
-    mkMF "_state_lock" false 0 0 [] [] 0 0;
+  mkCF 1 true 0 [
     mkMF "_is_mask" true 0 0 [] [] 0 0;
-    mkMF "fetch" true 1 0 ["_state_lock"; "_evict_expired"; "_fill_gap"; "_fetch_sink"] [] 0 0;
+    mkMF "fetch" true 0 1 [] ["_evict_expired"; "_fill_gap"; "_fetch_sink"] 0 1;
     mkMF "_fill_gap" false 7 0 ["_get_key"; "_stitch_at"; "_stitch_at"] [] 0 0;
     mkMF "_stitch_at" false 5 0 ["_get_key"; "_get_key"] [] 0 0;
     mkMF "_get_key" false 0 0 [] [] 0 0;
